@@ -135,6 +135,15 @@ int main(int argc, char** argv) {
             items.push_back({[=](Violations& V, auto& h) { check_tx_string(hex(ser_tx(t)), {}, label, "structure", V, h); }});
         }
     }
+    // ---- (1b) the transaction without inputs and without outputs (<version> 00 00 <lock time>, 10 bytes) and its neighbours: the empty vin is
+    //      what the segwit marker looks like, so this is where the two formats are told apart
+    for (const char* ver : {"01000000", "02000000", "ffffffff", "00000080"}) for (const char* lt : {"00000000", "ffffffff", "07000000"}) {
+        for (const char* mid : {"0000", "00000000", "00010000", "0001000000", "000100", "0002", "000001", "00000100", "0000015100", "00000151", "0001"}) {
+            std::string hx = std::string(ver) + mid + lt;
+            items.push_back({[=](Violations& V, auto& h) { check_tx_string(hx, {}, "no-input forms: version " + std::string(ver) + " then " + mid + " then lock time " + lt, "empty-vin", V, h);
+                                                            check_tx_string(hx + "5151", {}, "no-input forms with two more bytes: " + hx, "empty-vin", V, h); }});
+        }
+    }
     // ---- (2) lengths across compact-size boundaries, one position at a time and in pairs
     std::vector<size_t> lens = {0, 1, 75, 76, 252, 253, 254, 255, 256, 65535, 65536};
     for (size_t l1 : lens) for (size_t l2 : lens) for (size_t l3 : (th ? lens : std::vector<size_t>{0, 253, 65536})) {
